@@ -1,3 +1,4 @@
+import os
 # Mailbox-world scenario driver shared by C01, C02, C03, C08, C09, C14, C18.
 # Two real wormhole clients + the real mailbox server in simworld; the
 # application's calls ("intents"), server/client deliveries, faults and
@@ -286,6 +287,7 @@ def run(P, on_step=None, setup=None, at_stable=None, adversary=None, on_idle=Non
     if P.get("welcome_error_late"):
         W.late_welcome = tuple(P["welcome_error_late"])
     W.clean_drops = bool(P.get("clean_drops", True))       # some connection losses are graceful closes (code 1000)
+    W.closing_drops = bool(P.get("closing_drops", False))  # ... through a window in which the WebSocket is CLOSING (sendMessage raises)
     rec.world = W
     tape = Tape(P["tape"])
     try:
